@@ -93,7 +93,11 @@ class Seams:
         class HookConn(_sqlite3.Connection):
             def execute(self, sql, *args):
                 seams.ctl.event('sql', sql, self)
-                return _sqlite3.Connection.execute(self, sql, *args)
+                try:
+                    return _sqlite3.Connection.execute(self, sql, *args)
+                except _sqlite3.OperationalError:
+                    seams.ctl.event('sql-error', sql, self)
+                    raise
 
         def connect(*args, **kwargs):
             kwargs.setdefault('factory', HookConn)
